@@ -809,7 +809,8 @@ class Gen:
         # we do not predict names here; the runner reports them. Visible list is refreshed lazily.
         tv.visible = None
         tv.sources = left.sources | right.sources
-        tv.keys = left.keys + right.keys if how == "inner" else []
+        # the pair of row keys identifies a row of an inner join only if both inputs have one
+        tv.keys = left.keys + right.keys if (how == "inner" and left.keys and right.keys) else []
         tv.order_total = False
         tv.limit = False
         tv.summarized = False
